@@ -69,7 +69,7 @@ func main() {
 		"selection order between senders depends on Go map iteration, so a replay may fill a small request from other senders; recorded details are self-contained")
 	r.MinShapes(60)
 
-	cases := r.N(6000, 100000)
+	cases := r.N(6000, 250000)
 	opsPerCase := r.N(60, 120)
 	prices := []uint64{txkit.MinGasPrice, 2 * txkit.MinGasPrice, 3 * txkit.MinGasPrice}
 
